@@ -603,9 +603,12 @@ func c13RunScenario(f []string) string {
 	for _, rd := range readers {
 		acks += rd.acks.Load()
 	}
+	var rwg sync.WaitGroup
 	for i := range names {
-		_ = d.RemoveDevice(names[i], nil)
+		rwg.Add(1)
+		go func(n string) { defer rwg.Done(); _ = d.RemoveDevice(n, nil) }(names[i])
 	}
+	rwg.Wait()
 	close(stopCollect)
 	<-collectDone
 
